@@ -87,6 +87,91 @@ fn permutations3() -> Vec<[usize; 3]> {
     vec![[0, 1, 2], [0, 2, 1], [1, 0, 2], [1, 2, 0], [2, 0, 1], [2, 1, 0]]
 }
 
+/// Entries and rows built by the caller through the public fields (as a front end does that edits
+/// the expected value or assembles its own report): the verdict rules hold for every combination of
+/// width, output and expected value, whether or not the numbers fit the width.
+pub fn hand_built_part(deadline: &Deadline) -> Stats {
+    use digital_test_runner as dtr;
+    let widths = [1usize, 2, 4, 8, 16, 32, 63, 64];
+    let nums = [0i64, 1, 2, 3, 5, 15, 16, 17, 255, 256, -1, -2, -16, i64::MAX, i64::MIN, 1 << 32, (1 << 32) + 5];
+    let mut outs: Vec<dtr::OutputValue> = vec![dtr::OutputValue::Z, dtr::OutputValue::X];
+    outs.extend(nums.iter().map(|n| dtr::OutputValue::Value(*n)));
+    let mut exps: Vec<dtr::ExpectedValue> = vec![dtr::ExpectedValue::Z, dtr::ExpectedValue::X];
+    exps.extend(nums.iter().map(|n| dtr::ExpectedValue::Value(*n)));
+    let truth = |o: dtr::OutputValue, e: dtr::ExpectedValue| match (e, o) {
+        (dtr::ExpectedValue::X, _) => true,
+        (dtr::ExpectedValue::Z, dtr::OutputValue::Z) => true,
+        (dtr::ExpectedValue::Value(a), dtr::OutputValue::Value(b)) => a == b,
+        _ => false,
+    };
+    let n = (widths.len() * 3 * outs.len() * exps.len()) as u64;
+    par_range("entries built through the public fields: 8 widths x {output, bidirectional, declared} x 19 outputs x 19 expected values, alone and as the middle entry of a row", n, deadline, |u, st| {
+        let mut c = u as usize;
+        let e = exps[c % exps.len()];
+        c /= exps.len();
+        let o = outs[c % outs.len()];
+        c /= outs.len();
+        let kind = c % 3;
+        c /= 3;
+        let bits = widths[c];
+        let sig = match kind {
+            0 => dtr::Signal::output("Q", bits),
+            1 => dtr::Signal::bidirectional("Q", bits, dtr::InputValue::Z),
+            _ => {
+                // a declared signal, taken from the public signal list of a loaded test
+                let tc: Result<dtr::TestCase, _> = "A V\ndeclare V = 1;\n0 1\n".parse::<dtr::ParsedTestCase>().map_err(|_| ()).and_then(|p| p.with_signals(vec![dtr::Signal::input("A", 1, 0)]).map_err(|_| ()));
+                match tc {
+                    Ok(tc) => match tc.signals.iter().find(|s| s.name == "V") {
+                        Some(s) => s.clone(),
+                        None => return,
+                    },
+                    Err(_) => return,
+                }
+            }
+        };
+        let other = dtr::Signal::output("R", 4);
+        st.evals += 1;
+        st.nontrivial += 1;
+        let got = guard(DEFAULT_BUDGET, || {
+            let entry = dtr::OutputResultEntry { signal: &sig, output: o, expected: e };
+            let row = dtr::DataRow {
+                inputs: vec![],
+                outputs: vec![dtr::OutputResultEntry { signal: &other, output: dtr::OutputValue::Value(3), expected: dtr::ExpectedValue::Value(3) }, entry.clone(), dtr::OutputResultEntry { signal: &other, output: dtr::OutputValue::Value(3), expected: dtr::ExpectedValue::Value(4) }],
+                line: 1,
+            };
+            let failing: Vec<String> = row.failing_outputs().map(|f| format!("{}:{}/{}", f.signal.name, f.output, f.expected)).collect();
+            (entry.check(), entry.is_checked(), e.check(o), o.check(e), failing)
+        });
+        let want = truth(o, e);
+        let mut want_failing = vec![];
+        if !want {
+            want_failing.push(format!("{}:{o}/{e}", sig.name));
+        }
+        want_failing.push("R:3/4".to_string());
+        st.witness(if want { "hand_built_entry_passes" } else { "hand_built_entry_fails" });
+        let bad = match &got {
+            Err(c) => Some(("panic".to_string(), format!("{c:?}"))),
+            Ok((chk, is_chk, ec, oc, failing)) => {
+                if *chk != want {
+                    Some(("check()".to_string(), format!("check() is {chk}, the rules give {want}")))
+                } else if *is_chk != (e != dtr::ExpectedValue::X) {
+                    Some(("is_checked()".to_string(), format!("is_checked() is {is_chk}")))
+                } else if *ec != want || *oc != want {
+                    Some(("ExpectedValue::check / OutputValue::check".to_string(), format!("ExpectedValue::check gives {ec}, OutputValue::check gives {oc}, the rules give {want}")))
+                } else if *failing != want_failing {
+                    Some(("failing_outputs()".to_string(), format!("failing_outputs() is {failing:?}, expected {want_failing:?}")))
+                } else {
+                    None
+                }
+            }
+        };
+        if let Some((class, d)) = bad {
+            let desc = format!("an OutputResultEntry built through its public fields: signal {} ({} bits), output {o}, expected {e}\n{d}", ["output Q", "bidirectional Q", "declared V"][kind], sig.bits);
+            st.violation(&format!("hand-built entry: {class}"), u, desc.clone(), || json!({"kind": "none", "text": desc, "expected": [format!("check() = {want}")], "observed": [d.clone()]}));
+        }
+    })
+}
+
 pub fn run(tier: Tier, seed: u64) -> i32 {
     let started = Instant::now();
     let deadline = Deadline::new(tier.wall_cap());
@@ -292,10 +377,11 @@ pub fn run(tier: Tier, seed: u64) -> i32 {
             "oracle: the scripted driver's own record of what it returned for each signal in the call made for the row; X/Z truth table written from the property".into(),
             "the expected value itself is taken from the row (its reduction to the signal width is C07's)".into(),
         ],
-        required_witnesses: vec!["unsupplied_output_is_X", "expected_X", "expected_Z_output_Z", "expected_Z_output_other", "number_vs_number", "number_vs_Z_or_X", "c_expansion", "one_loaded_test_used_twice_with_different_drivers", "iterator_advanced_with_nth"],
+        required_witnesses: vec!["unsupplied_output_is_X", "expected_X", "expected_Z_output_Z", "expected_Z_output_other", "number_vs_number", "number_vs_Z_or_X", "c_expansion", "one_loaded_test_used_twice_with_different_drivers", "iterator_advanced_with_nth", "hand_built_entry_passes", "hand_built_entry_fails"],
         exhaustive_note: "every reachable state for every case; thorough uses the full 8-value menu for three-signal layouts".into(),
         e1: true,
     };
+    st.merge(hand_built_part(&deadline));
     st.merge(crate::props::c13::reuse_part(&deadline));
     st.merge(crate::props::c13::api_use_part(&deadline));
     st.merge(crate::props::c14::cloned_signal_list_part(&deadline));
